@@ -12,7 +12,10 @@ Terms are strings: "_:label", "<iri>", '"lex"', '"lex"@lang', '"lex"^^<datatype>
 Observations (pair): the four verdicts of the implementation
     isomorphic(g1,g2) | to_isomorphic(g1)==to_isomorphic(g2) | graph_digest equal | set(to_canonical_graph(g1))==set(…g2)
   each compared with the verified Lean `isoDecide g1 g2` (or `isoCheck` with the known relabelling for pairs too
-  large for the exponential search), then the three `graph_diff` clauses (model: theorem `diff_clauses` ⇒ all true).
+  large for the exponential search), then the three `graph_diff` clauses (model: theorem `diff_clauses` ⇒ all true),
+  `canon-search-verdict` (exhaustive search model, ≤7 blank nodes) and `canon-refine-verdict` (canonical-graph equality
+  predicted by the colour-refinement model `canonRefine` when its refinement is discrete on both graphs, else by the
+  isomorphism verdict); the public refinement stats of to_canonical_graph are compared with the model as a diagnostic.
 Property oracle (viol): `harness/isoutil.iso` (independent Python search), cross-validated inside every case against
 the Lean driver; a disagreement between the two oracles is a harness error, never a violation.
 """
@@ -63,7 +66,8 @@ ASSUMPTIONS = ["blank nodes do not occur in predicate position (not RDF)",
                "SHA-256 sums used as colour / graph digests do not collide on the generated inputs"]
 TRUSTED = ["harness/c14.py generators, term numbering and canonicalisation", "driverHashes of RV/C14/Search.lean do not collide "
            "on the compared graphs (a collision can only produce `none` or a wrong verdict of the canon op, which is "
-           "cross-checked against isoutil and isoDecide in every case)", "lean/RV/C14/Drive.lean line protocol and "
+           "cross-checked against isoutil and isoDecide in every case)", "sumHash/termHash of RV/C14/Canon.lean do not collide on the compared graphs (a collision can only turn a "
+           "canon-refine-verdict into a disagreement, i.e. a false alarm)", "lean/RV/C14/Drive.lean line protocol and "
            "string interning", "harness/isoutil.py (cross-validated against the verified isoDecide on every case "
            "small enough for the Lean search, and against isoCheck certificates for relabelled pairs)",
            "urllib.parse.urljoin/urlparse on skolem IRIs (contract stated as hypothesis UrlContract in Props.lean)"]
